@@ -11,10 +11,11 @@
 //!   roots <w:0|1> <gpath>..            new handler (with a real notify watcher if w=1) and channel
 //!   mk d|f <gpath> / rm <gpath>        file-system set-up
 //!   id <root gpath> <path gpath>       raw `id_of_path`
-//!   ev <kind> <gpath>..                raw event (kind: any access create modname modother remove other)
+//!   ev <kind> <gpath>..                raw event (kind: any access create modname modother remove removeany other;
+//!                                      `remove` carries `RemoveKind::File` / `Folder` after what is at the path)
 //!   err / drop-rx                      an `Err` event / drop the receiving end of the channel
 //!   pathof f|d <hexid> <hexext>        `FileSystem::path_of` under root 0, then back through `id_of_path`
-//!   note <create|modify|rename|delete|any|access> <root#> f|d <hexid> <hexext> <decor>
+//!   note <create|modify|rename|delete|deleteany|any|access> <root#> f|d <hexid> <hexext> <decor>
 //!                                      scenario: the valid entry (id, ext) under root # is notified;
 //!                                      decor bits spell the path with `.` / `zz/..` detours
 //!   real-roots <n> / real pre|create|modify|delete|rename … / real-start   (see `exec_real`)
@@ -211,6 +212,7 @@ fn ev_kind(k: &str, npaths: usize, dir: bool) -> EventKind {
         "modname" => EventKind::Modify(ModifyKind::Name(if npaths == 2 { RenameMode::Both } else { RenameMode::To })),
         "modother" => EventKind::Modify(ModifyKind::Data(DataChange::Any)),
         "remove" => EventKind::Remove(if dir { RemoveKind::Folder } else { RemoveKind::File }),
+        "removeany" => EventKind::Remove(RemoveKind::Any),
         "other" => EventKind::Other,
         _ => panic!("watch engine: event kind {k}"),
     }
@@ -219,7 +221,9 @@ fn ev_kind(k: &str, npaths: usize, dir: bool) -> EventKind {
 impl Live {
     /// Feed one event to the real handler; record the model line; return the batches delivered.
     fn feed(&mut self, k: &str, paths: &[PathBuf], dir_hint: bool, rec: &mut CaseRec) -> Vec<Vec<OwnedDirEntry>> {
-        let mut line = format!("watch.ev {k}");
+        // a typed removal says what the entry was; the model is told which `RemoveKind` was sent
+        let mk = match k { "remove" => if dir_hint { "removefolder" } else { "removefile" }, other => other };
+        let mut line = format!("watch.ev {mk}");
         for p in paths {
             line.push_str(&format!(" {} {} {}", tok(p), flag(p.is_dir()), flag(p.parent().map_or(false, |q| q.is_dir()))));
         }
@@ -260,7 +264,7 @@ const SEGS: &[&str] = &["a", "b", "dir", "é", "x y", "A1"];
 const EXTS: &[&str] = &["", "txt", "x", "é"];
 /// Names that are not valid id segments / not expressible (bytes).
 const WEIRD: &[&[u8]] = &[b"a.b", b".h", b"a.", b"a..b", b"a.b.c", b"\xff", b"a\xff", b"a.\xff", b"\xffa.txt", b"..", b".", b"\xc3\xbc.\xc3\xb6"];
-const KINDS: &[&str] = &["any", "access", "create", "modname", "modother", "remove", "other"];
+const KINDS: &[&str] = &["any", "access", "create", "modname", "modother", "remove", "removeany", "other"];
 const NKINDS: &[&str] = &["create", "modify", "rename", "delete", "any", "access"];
 
 fn entries_upto(depth: usize) -> Vec<(bool, String, String)> {
@@ -440,7 +444,8 @@ impl Engine for WatchEngine {
                         0..=59 => {
                             let e = rand_entry(rng);
                             let decor = if rng.chance(1, 2) { 0 } else { rng.below(256) };
-                            l.push(note(*rng.pick(NKINDS), rng.below(roots.len()), &e, decor));
+                            let nk = if rng.chance(1, 10) { "deleteany" } else { *rng.pick(NKINDS) };
+                            l.push(note(nk, rng.below(roots.len()), &e, decor));
                         }
                         60..=69 => { let r = *rng.pick(&roots); let p = rand_raw_path(rng, r); l.push(format!("mk {} {p}", if rng.chance(2, 3) { "d" } else { "f" })); l.push(format!("ev {} {p}", rng.pick(KINDS))); }
                         70..=79 => { let np = rng.range(1, 2); let ps: Vec<String> = (0..np).map(|_| { let r = *rng.pick(&roots); rand_raw_path(rng, r) }).collect(); l.push(format!("ev {} {}", rng.pick(KINDS), ps.join(" "))); }
@@ -508,7 +513,9 @@ impl Engine for WatchEngine {
                     let Some(lv) = live.as_mut() else { rec.stat("skipped/no-roots"); continue };
                     let paths: Vec<PathBuf> = w[2..].iter().map(|g| resolve(&base, g)).collect();
                     let dir_hint = paths.first().map_or(false, |p| p.is_dir());
-                    let msgs = lv.feed(w[1], &paths, dir_hint, rec);
+                    // one notification carries one `RemoveKind`: paths of both kinds are reported untyped
+                    let kind = if w[1] == "remove" && paths.iter().any(|p| p.is_dir() != dir_hint) { "removeany" } else { w[1] };
+                    let msgs = lv.feed(kind, &paths, dir_hint, rec);
                     rec.stat(format!("ev/{}", w[1]));
                     rec.nontrivial = true;
                     // statement: whatever is named must be the entry at the notified path (or its parent)
@@ -518,7 +525,10 @@ impl Engine for WatchEngine {
                     if msgs.len() == paths.len() {
                         for (p, b) in paths.iter().zip(&msgs) {
                             for e in b {
-                                let at_parent = p.parent().map_or(false, |q| expressible_ok(&lv.roots, q, e));
+                                // the parent of an entry is a directory by definition; an event about a path below
+                                // a regular file contradicts the file system, not the property
+                                let at_parent = p.parent().map_or(false, |q| expressible_ok(&lv.roots, q, e)
+                                    || (q.exists() && !q.is_dir() && matches!(e, OwnedDirEntry::Directory(_)) && names_path(&lv.roots, q, e)));
                                 if !expressible_ok(&lv.roots, p, e) && !at_parent { expressible_fail(p, e, &mut fails); }
                             }
                         }
@@ -569,7 +579,9 @@ impl Engine for WatchEngine {
                 }
                 "note" => {
                     let Some(lv) = live.as_mut() else { rec.stat("skipped/no-roots"); continue };
-                    let kind = NKind::parse(w[1]);
+                    // `deleteany`: a deletion reported without the kind of what was deleted (Remove(Any))
+                    let untyped = w[1] == "deleteany";
+                    let kind = if untyped { NKind::Delete } else { NKind::parse(w[1]) };
                     let ri: usize = w[2].parse().expect("root index");
                     if ri >= lv.roots.len() { rec.stat("skipped/bad-root"); continue; }
                     let dir = w[3] == "d";
@@ -594,7 +606,7 @@ impl Engine for WatchEngine {
                         if plain.is_dir() != dir && plain.exists() { rm(&plain); }
                         mk(&plain, dir);
                     }
-                    let k = match kind { NKind::Create => "create", NKind::Modify => "modother", NKind::Rename => "modname", NKind::Delete => "remove", NKind::Any => "any", NKind::Access => "access" };
+                    let k = match kind { NKind::Create => "create", NKind::Modify => "modother", NKind::Rename => "modname", NKind::Delete => if untyped { "removeany" } else { "remove" }, NKind::Any => "any", NKind::Access => "access" };
                     let msgs = lv.feed(k, &[spelled.clone()], dir, rec);
                     rec.stat(format!("note/{}/{}/depth{}{}", w[1], w[3], segs.len(), if decor != 0 { "/detour" } else { "" }));
                     rec.nontrivial = true;
@@ -620,7 +632,9 @@ impl Engine for WatchEngine {
                     }
                     let what = format!("{} of {} under root {ri} (path {:?})", w[1], show_ent(&own), spelled.strip_prefix(&base).unwrap_or(&spelled));
                     let detour_before_last = !segs.is_empty() && decor >> (2 * (segs.len() - 1) + 1) & 1 == 1;
-                    if lv.rx.is_some() { judge(kind, &own, &others, &got, &lenient, detour_before_last, &what, &mut fails); }
+                    // the kind of a deleted directory cannot be known from an untyped removal: only files are judged then
+                    if untyped && dir { rec.stat("note/deleteany/directory(not judged)"); }
+                    else if lv.rx.is_some() { judge(kind, &own, &others, &got, &lenient, detour_before_last, &what, &mut fails); }
                     lv.watcher_check(&what, &mut fails);
                 }
                 "real-roots" | "real" | "real-start" => real.line(&base, &w, rec, &mut fails),
@@ -637,8 +651,13 @@ impl Engine for WatchEngine {
 /// shows (the kind of something that is gone cannot be told)?
 fn expressible_ok(roots: &[PathBuf], path: &Path, e: &OwnedDirEntry) -> bool {
     let kind_ok = !path.exists() || matches!(e, OwnedDirEntry::Directory(_)) == path.is_dir();
+    kind_ok && names_path(roots, path, e)
+}
+
+/// Is `path` the path of `e` under one of the roots (kind apart)?
+fn names_path(roots: &[PathBuf], path: &Path, e: &OwnedDirEntry) -> bool {
     let target = lexical(path);
-    kind_ok && roots.iter().any(|r| lexical(&own_path_of(r, e)) == target)
+    roots.iter().any(|r| lexical(&own_path_of(r, e)) == target)
 }
 
 fn expressible_fail(path: &Path, e: &OwnedDirEntry, out: &mut Vec<String>) {
